@@ -189,6 +189,22 @@ def programs():
     add("dropck_into_iter_owner_declared_after", "drop-check",
         loud + "fn f() {\n    let mut b: Buf<Loud<'_>> = Buf::new();\n    let mut it = b.into_iter();\n    let owner = String::from(\"x\");\n    let mut c: Buf<Loud<'_>> = Buf::new();\n    c.push_back(Loud(&owner));\n    it = c.into_iter();\n}\n", "reject",
         twin="dropck_owner_declared_before_buffer")
+    # 4d. a drain has a destructor that goes back into the buffer: its implicit drop at the end of the scope is a use of
+    # the borrow, also when the program never mentions the drain again (a destructor moved onto a field type without the
+    # lifetime would let the borrow end at the last explicit use)
+    add("dropck_drain_declared_before_buffer", "drop-check",
+        "fn f() {\n    let _d;\n    let mut b: Buf<String> = Buf::new();\n    b.push_back(String::new());\n    _d = b.drain(..);\n}\n", "reject",
+        twin="dropck_drain_declared_after_buffer")
+    add("dropck_drain_declared_after_buffer", "drop-check",
+        "fn f() {\n    let mut b: Buf<String> = Buf::new();\n    b.push_back(String::new());\n    let _d;\n    _d = b.drain(..);\n}\n", "accept")
+    add("dropck_drain_alive_until_scope_end", "drop-check",
+        "fn f() {\n    let mut b: Buf<String> = Buf::new();\n    {\n        let _d = b.drain(..);\n        b.push_back(String::new());\n    }\n}\n", "reject",
+        twin="dropck_drain_scope_ended")
+    add("dropck_drain_scope_ended", "drop-check",
+        "fn f() {\n    let mut b: Buf<String> = Buf::new();\n    {\n        let _d = b.drain(..);\n    }\n    b.push_back(String::new());\n}\n", "accept")
+    add("dropck_drain_alive_until_scope_end_read", "drop-check",
+        "fn f() -> usize {\n    let mut b: Buf<u8> = Buf::new();\n    let _d = b.drain(..);\n    b.len()\n}\n", "reject",
+        twin="dropck_drain_scope_ended")
     # 6. bound-free impls
     add("impl_iter_clone_without_t_clone", "bound-free", "struct NoTraits;\nfn f(it: It<'_, NoTraits>) -> It<'_, NoTraits> { it.clone() }\n", "accept")
     add("impl_iter_default_without_bounds", "bound-free", "struct NoTraits;\nfn f<'a>() -> It<'a, NoTraits> { Default::default() }\n", "accept")
